@@ -198,7 +198,9 @@ def illegal_inputs(ctx, rng):
         good = [0, 1, (1 << w) - 1, 1 << (w - 1)]
         for simcls in SIMS:
             for v in bad + good:
-                sim = mk_sim(simcls, blk)
+                # now and then with a non-zero default_value, the very value about to be offered included
+                dv = 0 if rng.random() < 0.5 else (v if v > 0 and rng.random() < 0.6 else 5)
+                sim = mk_sim(simcls, blk, default_value=dv)
                 n += 1
                 try:
                     sim.step({'i': v, 'j': 3})
@@ -215,7 +217,7 @@ def illegal_inputs(ctx, rng):
                     ctx.violation('input-range:%s' % simcls.__name__,
                                   '%s.step with value %d for a %d-bit input: %s%s (must be %s)' % (
                                       simcls.__name__, v, w, res, '' if seen is None else ', simulated as %d' % seen, want),
-                                  {'kind': 'illegal-input', 'simulator': simcls.__name__, 'width': w, 'value': v})
+                                  {'kind': 'illegal-input', 'simulator': simcls.__name__, 'width': w, 'value': v, 'default_value': dv})
                 elif res == 'accepted' and seen != v:
                     ctx.violation('input-value:%s' % simcls.__name__, '%s reports %d for input value %d' % (simcls.__name__, seen, v),
                                   {'kind': 'illegal-input', 'simulator': simcls.__name__, 'width': w, 'value': v})
@@ -327,17 +329,28 @@ def assertions(ctx, rng):
         spec = ctx.driver.ask(simrun.lean_request(ser, steps, {}, {}, 0, model='spec', watch=[aw]))
         vals = [row[0] for row in spec['trace']]
         first = next((c for c, v in enumerate(vals) if v == 0), None)
+        # in half of the runs the simulated block is not the working block while it is simulated
+        foreign = rng.random() < 0.5
+        ctx.count('rtl_assert-working-block', 'foreign' if foreign else 'same')
+        other = pyrtl.Block()
         for simcls in SIMS[:2]:
-            sim = mk_sim(simcls, blk)
             raised = None
-            for c, s in enumerate(steps):
-                try:
-                    sim.step(dict(s))
-                except type(exc) as e_:
-                    if e_ is exc:
-                        raised = c
-                        break
-                    raise
+            narrow = rng.random() < 0.4
+            with pyrtl.set_working_block(other if foreign else blk, no_sanity_check=True):
+                if narrow:
+                    # a tracer that follows one wire only: the assertion (an Output the tracer does not list) still fires
+                    sim = simcls(tracer=pyrtl.SimulationTrace(wires_to_track=[o], block=blk), block=blk)
+                    ctx.count('rtl_assert-tracer', 'narrow')
+                else:
+                    sim = mk_sim(simcls, blk)
+                for c, s in enumerate(steps):
+                    try:
+                        sim.step(dict(s))
+                    except type(exc) as e_:
+                        if e_ is exc:
+                            raised = c
+                            break
+                        raise
             n += 1
             # the cycle in which the assertion fires is a cycle like any other for the observation channels
             if raised is not None:
@@ -346,7 +359,7 @@ def assertions(ctx, rng):
                 if ln != {raised + 1}:
                     ctx.violation('trace-length-after-assert:' + simcls.__name__, '%s: after the assertion fired in cycle %d the trace holds %r entries per wire, '
                                   '%d steps were taken' % (simcls.__name__, raised, sorted(ln), raised + 1), {'kind': 'rtl_assert', 'steps': steps, 'block': ser.data})
-                elif any(sim.inspect(w) != tr[w][-1] for w in ('a', 'o')):
+                elif any(sim.inspect(w) != tr[w][-1] for w in ('a', 'o') if w in set(tr.keys())):
                     ctx.violation('inspect-vs-trace-after-assert:' + simcls.__name__, '%s: after the assertion fired inspect() differs from the last trace entry' % simcls.__name__,
                                   {'kind': 'rtl_assert', 'steps': steps, 'block': ser.data})
             if raised != first:
